@@ -140,6 +140,66 @@ def run():
     log += _expect("DispatchTrace", u, [("wrong-formatter", dict(u, answer=["1", "VA"] if u["answer"] != ["1", "VA"] else ["2", "object"])),
                                         ("none", dict(u, answer=[]))],
                    constants={"K": 1, "Names": "<- N0", "MaxSubs": 0, "MaxDepth": 1})
+    # Compound (L2 model of KeyValuePairEdit / XMLElementEdit): a model behaviour replayed on the real classes agrees; a
+    # behaviour with a corrupted answer / a different refinement order must be noticed
+    from props import _compound
+    cb = {"config": "xml", "final": 2,
+          "chains": [[[0, 1], [1, 1]], [[0, 1], [0, 0]], [[0, 1], [1, 1]], [[0, 0]]],
+          "hist": [{"op": "bounds", "ret": [0, 3], "ptr": [1, 1, 1, 1]}, {"op": "tighten", "ret": [1], "ptr": [2, 1, 1, 1]},
+                   {"op": "tighten", "ret": [1], "ptr": [2, 1, 2, 1]}, {"op": "complete", "ret": [0], "ptr": [2, 1, 2, 1]},
+                   {"op": "edits", "ret": [1, 2, 3, 4], "ptr": [2, 1, 2, 1]}, {"op": "bounds", "ret": [2, 3], "ptr": [2, 1, 2, 1]}]}
+    d0, o0 = _compound.replay(cb)
+    if d0 or o0["raised"]:
+        raise MachineryError("Compound.tla behaviour does not replay on the real XMLElementEdit: %s %s" % (d0, o0))
+    for name, mut in (("wrong-bounds", lambda b: b["hist"][5].__setitem__("ret", [2, 4])),
+                      ("attrib-before-text", lambda b: b["hist"][2].__setitem__("ptr", [2, 2, 1, 1])),
+                      ("complete-too-early", lambda b: b["hist"][3].__setitem__("ret", [1])),
+                      ("edits-order", lambda b: b["hist"][4].__setitem__("ret", [1, 3, 2, 4])),
+                      ("final-cost", lambda b: b.__setitem__("final", 3))):
+        bad = copy.deepcopy(cb)
+        mut(bad)
+        d1, _ = _compound.replay(bad)
+        if not d1:
+            raise MachineryError("Compound replay does not notice a corrupted behaviour (%s)" % name)
+        log.append("Compound/%s -> drift noticed" % name)
+    # Status (L2 model of StatusWriter): a model behaviour replays on the real class; corrupted ones are noticed
+    from props import _status
+    sb = {"hist": [{"op": "write", "arg": ["a", "f"], "out": [], "pending": ["a", "f"]},
+                   {"op": "write", "arg": ["a", "n", "a"], "out": ["a", "f", "a", "n"], "pending": ["a"]},
+                   {"op": "flush", "arg": ["F"], "out": ["a", "f", "a", "n"], "pending": ["a"]},
+                   {"op": "close", "arg": [], "out": ["a", "f", "a", "n", "a", "n"], "pending": []}]}
+    for fch in ("\x0c", "\u2028", "b"):
+        if _status.replay(sb, fch):
+            raise MachineryError("Status.tla behaviour does not replay on the real StatusWriter: %s" % _status.replay(sb, fch))
+    for name, mut in (("line-split-at-separator", lambda b: (b["hist"][1].__setitem__("out", ["a", "n", "a", "n"]))),
+                      ("held-back", lambda b: b["hist"][1].__setitem__("pending", ["a", "a"])),
+                      ("no-final-newline", lambda b: b["hist"][3].__setitem__("out", ["a", "f", "a", "n", "a"]))):
+        bad = copy.deepcopy(sb)
+        mut(bad)
+        if not _status.replay(bad, "\x0c"):
+            raise MachineryError("Status replay does not notice a corrupted behaviour (%s)" % name)
+        log.append("Status/%s -> drift noticed" % name)
+    # Driver (L2 model of the driving loops of tree.py): a model end state agrees with the real loops; corrupted ones do not
+    from harness import corpus as _corpus
+    from props import _driver
+    _corpus._quiet_env()
+    de = {"chains": [[[0, 0]], [[0, 1], [1, 1]]], "early": True, "view": "flat",
+          "yielded": [{"leaf": 2, "lo": 1, "ptr": [1, 2]}], "ptr": [1, 2], "cost": -1, "lists": [0, 0, 0]}
+    if _driver.replay(de):
+        raise MachineryError("Driver.tla end state does not agree with the real get_all_edit_contexts: %s" % _driver.replay(de))
+    dt = {"chains": [[[0, 2], [1, 2], [2, 2]], [[1, 1]]], "early": False, "view": "tree", "yielded": [], "ptr": [3, 1], "cost": 3,
+          "lists": [1, 1, 1]}
+    if _driver.replay(dt):
+        raise MachineryError("Driver.tla end state does not agree with the real diff / edited_cost: %s" % _driver.replay(dt))
+    for name, base, mut in (("zero-cost-edit-listed", de, lambda b: b.__setitem__("yielded", [{"leaf": 1, "lo": 0, "ptr": [1, 1]}] + b["yielded"])),
+                            ("handed-out-unrefined", de, lambda b: b["yielded"][0].__setitem__("ptr", [1, 1])),
+                            ("tree-cost", dt, lambda b: b.__setitem__("cost", 2)),
+                            ("entered-twice", dt, lambda b: b.__setitem__("lists", [2, 1, 1]))):
+        bad = copy.deepcopy(base)
+        mut(bad)
+        if not _driver.replay(bad):
+            raise MachineryError("Driver replay does not notice a corrupted end state (%s)" % name)
+        log.append("Driver/%s -> drift noticed" % name)
     # Assign
     good = {"table": [[1, 0], [0, 2]], "result": [[1, 2, 0], [2, 1, 0]], "raised": False}
     b1 = {"table": [[1, 0], [0, 2]], "result": [[1, 1, 1], [2, 2, 2]], "raised": False}
